@@ -10,6 +10,7 @@ transpiler rejects with an error satisfies the property; a call that silently pr
 import dataclasses
 import importlib
 import inspect
+import re
 import itertools
 import os
 import sys
@@ -482,6 +483,38 @@ def spacing_and_literal_obligations(P):
             out.append({"name": f"C08/{label}/two-calls-in-one-block", "status": "discharged" if not fails else "sat", "backend": "enum",
                         "where": f"{label}: two calls with different arguments in one block give two IR nodes, each with its own arguments", "time": round(time.time() - t0, 3),
                         "replay": {"examples": fails[:3], "script": src2[-260:]}, "replay_confirmed": bool(fails)})
+            # ---- (a4) an omitted parameter binds to its default whatever the values of the other arguments: the IR of the call with the
+            #      parameter omitted equals the IR with the default written out, for small, boundary and large literal values of the others
+            t0 = time.time()
+            fails = []
+            simple_defaults = [p for p in params if p.default is not inspect._empty and isinstance(p.default, (int, float, str, bool)) and p.kind != p.POSITIONAL_ONLY]
+            for p in simple_defaults:
+                others = [q for q in params if q is not p]
+                for k in (0, 1, 7, 20, 49, 50, 255, 1000):
+                    for with_optional in (False, True):
+                        base_args = []
+                        for q in others:
+                            if q.default is not inspect._empty and not with_optional:
+                                continue
+                            lit = LITERAL_PROBES.get((cls, meth, q.name))
+                            if lit:
+                                v = lit[0]
+                            elif isinstance(q.default, (bool, str)) and q.default is not inspect._empty:
+                                v = repr(q.default)
+                            else:
+                                v = str(k)
+                            base_args.append(f"{q.name}={v}" if q.kind != q.POSITIONAL_ONLY else v)
+                        line_o, omitted = ir_of(base_args)
+                        line_e, explicit = ir_of(base_args + [f"{p.name}={p.default!r}"])
+                        if omitted[0] == "rejected" or explicit[0] == "rejected":
+                            continue
+                        norm = lambda t: re.sub(r"(?<![\w.])(-?\d+)\.0(?![\d])", r"\1", t)     # 100 and 100.0 are the same bound value
+                        if norm(omitted[1]) != norm(explicit[1]):
+                            fails.append({"call": line_o, "parameter": p.name, "default": repr(p.default), "ir_with_parameter_omitted": omitted[1][:200], "ir_with_default_written_out": explicit[1][:200]})
+            if simple_defaults:
+                out.append({"name": f"C08/{label}/omitted-parameter-is-its-default-for-any-other-arguments", "status": "discharged" if not fails else "sat", "backend": "enum",
+                            "where": f"{label}: omitting a defaulted parameter gives the IR of writing its default, for other arguments 0, 1, 7, 20, 49, 50, 255, 1000", "time": round(time.time() - t0, 3),
+                            "replay": {"examples": fails[:3]}, "replay_confirmed": bool(fails)})
             # ---- (a3) an explicit None for a parameter whose default is None binds like the omitted argument (or is rejected)
             t0 = time.time()
             fails = []
@@ -506,7 +539,9 @@ def spacing_and_literal_obligations(P):
         # ---- (b) a literal argument behaves like the same value routed through a variable (executed on the firmware mock)
         for p in params:
             ann = str(p.annotation)
-            if "float" not in ann or p.kind == p.POSITIONAL_ONLY or kind != "stmt":
+            int_param = "float" not in ann and "int" in ann and p.name not in ("pin", "trig", "echo", "red_pin", "green_pin", "blue_pin", "in1", "in2", "enable", "row", "col", "slot",
+                                                                                "rs", "en", "d4", "d5", "d6", "d7", "rw", "backlight_pin", "i2c_addr", "cols", "rows")
+            if ("float" not in ann and not int_param) or p.kind == p.POSITIONAL_ONLY or kind != "stmt":
                 continue
             others = [q for q in params if q is not p and q.default is inspect._empty]
             args = []
@@ -514,7 +549,9 @@ def spacing_and_literal_obligations(P):
                 v = LITERAL_PROBES.get((cls, meth, q.name), (None,))[0] or str(HOST_VALUES.get(q.name, 3 + names.index(q.name)) if not isinstance(HOST_VALUES.get(q.name), str) else repr(HOST_VALUES[q.name]))
                 args.append(f"{q.name}={v}" if q.kind != q.POSITIONAL_ONLY else v)
             # a non-integer value and zero (a falsy constant must not be mistaken for "argument omitted")
-            for tag, lit in (("", FLOAT_PROBE.get(p.name, 62.5)), ("/zero", 0)):
+            # an integer parameter given a fractional constant (folded `0.9 * 255`) is truncated like the run-time value, not rounded
+            probes = (("", FLOAT_PROBE.get(p.name, 62.5)), ("/zero", 0)) if not int_param else (("/fraction-above-half", 62.75), ("/fraction-odd-half", 63.5), ("/fraction-product", "0.9 * 70"))
+            for tag, lit in probes:
                 call_lit = f"dev.{meth}(" + ", ".join(args + [f"{p.name}={lit}"]) + ")"
                 call_var = f"dev.{meth}(" + ", ".join(args + [f"{p.name}=zzv"]) + ")"
                 LITVAR_JOBS.append((f"{label}/{p.name}{tag}", base_src + call_lit + "\n", base_src + f"zzv = {lit}\n" + call_var + "\n"))
